@@ -131,6 +131,13 @@ theorem C07_load_into_existing (rules : List Rule) (w w' : World) (hw : CReachab
     refine ⟨(allocAll w.heap (restoredVals b sp)).2, ?_, fun k ck a hck ha => spawn_fresh w _ k ck a hck ha⟩
     simp [List.getElem?_set_self (lt_of_getElem?_some hag)]
 
+/-- both load paths agree: loading the file of agent `i` into an existing agent `j` (from any
+    later world `w2`) makes `j` observe exactly what `i` observed when it was saved -/
+theorem C07_load_into_roundtrip (w : World) (i : Nat) (b : Blob) (hs : save w i = some b)
+    (w2 w' : World) (j : Nat) (h : loadInto w2 b [] j = some w') : view w' j = view w i := by
+  unfold save at hs
+  rw [hs, loadInto_view_self w2 w' b [] j h, restoredVals_all_saved]
+
 /-- train agents `i` and `j` alternately on the same batches -/
 def trainBoth {β} (step : World → Nat → β → World) (i j : Nat) (bs : List β) (w : World) : World :=
   bs.foldl (fun w b => step (step w i b) j b) w
